@@ -223,6 +223,8 @@ class C01(Prop):
     # -- gamma -------------------------------------------------------------
     def concretise(self, node, H, rnd, salt):
         k = node["k"]
+        if k == "E":
+            return ""
         if k in ("T", "H", "R"):       # leaves of the shared tree enumeration: text or number
             r = rnd.random()
             if r < 0.2:
